@@ -596,6 +596,17 @@ def templates():
         A((f'bad-regex:pattern:{k}', f"start = /{rx}/ ;\n"))
         A((f'bad-regex:pattern-q:{k}', f"start = ?'{rx}' ;\n"))
         A((f'bad-regex:whitespace:{k}', f"@@whitespace :: /{rx}/\nstart = 'a' ;\n"))
+    for k, rx in enumerate(BAD_REGEXES[:6]):
+        # @@whitespace also takes a plain string
+        A((f'bad-regex:whitespace-string:{k}', f"@@whitespace :: '{rx}'\nstart = 'a' ;\n"))
+    # patterns that also match the empty string (non-recursive grammars: a follow-up parse over budget IS a hang)
+    A(('nonrec:ws-matches-empty', "@@whitespace :: /\\s*/\nstart = 'a' 'b' ;\n"))
+    A(('nonrec:ws-matches-empty-alt', "@@whitespace :: /(?:[ ]|)/\nstart = {'a'} 'b' $ ;\n"))
+    A(('nonrec:comments-match-empty', "@@comments :: /(\\(\\*.*?\\*\\))?/\nstart = 'a' 'b' ;\n"))
+    A(('nonrec:eol-comments-match-empty', "@@eol_comments :: /(#.*)?/\nstart = 'a' 'b' ;\n"))
+    A(('huge-int-param', "start[" + "1" * 5000 + "] = 'a' ;\n"))
+    A(('huge-int-kwparam', "start[k=" + "9" * 5000 + "] = 'a' ;\n"))
+    A(('huge-float-param', "start[" + "1" * 400 + "." + "5" * 400 + "e" + "9" * 30 + "] = 'a' ;\n"))
     A(('bad-regex:comments', "@@comments :: /(/\nstart = 'a' ;\n"))
     A(('bad-regex:eol_comments', "@@eol_comments :: /[/\nstart = 'a' ;\n"))
     A(('bad-regex:concat', "start = /a/ + /(/ ;\n"))
@@ -699,7 +710,7 @@ def gram_text(rng, i, tier, shard=0):
     if r < 2:
         tpls = gram_templates()
         name, text = tpls[(shard * 19 + i // 20 * 2 + r) % len(tpls)] if rng.random() < 0.7 else rng.choice(tpls)
-        origin = 'template:' + name.split(':')[0]
+        origin = 'template:' + (name if name.startswith('nonrec:') else name.split(':')[0])
         nmut = rng.choice([0, 0, 0, 1])
     elif r < 5 and shipped():
         files = shipped()
@@ -888,6 +899,8 @@ def followup(acc, model, gtext, rng, origin):
             acc.count('gr_followup_failures_judged')
         elif isinstance(exc, (HeartDied, RecursionError)):
             acc.count('gr_followup_recursion_or_budget(C03/C16 domain)')
+        elif isinstance(exc, (O.Watchdog, O.StepsExceeded)) and 'nonrec' in str(origin):
+            problems = [('hang:followup-of-nonrecursive-template', f'a parse with a non-recursive grammar exceeded its budget ({cls})')]
         elif isinstance(exc, (O.Watchdog, O.StepsExceeded)):
             acc.count('gr_followup_budget(possibly recursive grammar: not judged)')
         elif O.is_tatsu_exception(exc):
